@@ -324,6 +324,18 @@ def roundtrip_unit(uid, shape_fn, assign_name, descr):
         m2 = ip.call(method(ip, gb, "build_model"), [], {"copy": True})
         c.oblige("copy_true.same_state", observe(ip, m2) == ref_state)
         c.oblige("copy_true.independent_of_builder_nodes", all(m2.f["_vars"][assign_name] is not r for r in roots) and after_assign(m2) == ref_assigned and ip.getattr(roots[0], "model") is None)
+        # the Model constructor takes an ITERABLE of nodes and variables: a one-shot iterator over the popped objects gives the model a list gives
+        # (with and without growing the graph)
+        for grow in (True, False):
+            built = {}
+            for how in ("list", "iterator"):
+                _, m4 = fresh()
+                nodes, vars_ = ip.call(method(ip, m4, "pop_nodes_and_vars"), [], {})
+                objs = list(nodes.values()) + list(vars_.values())
+                kind, mm = try_call(ip, Model, [objs if how == "list" else PyObj("iterator", items=objs, pos=0)], {"grow": grow})
+                built[how] = (kind, observe(ip, mm) if kind == "ok" else None, sorted(mm.f["_vars"]) if kind == "ok" else None, str(getattr(mm, "args", "")))
+            c.oblige(f"model_from_a_one_shot_iterable.grow_{grow}.same_as_from_a_list", built["list"][0] == "ok" and built["iterator"][:3] == built["list"][:3],
+                     from_list=str(built["list"][2]), from_iterator=str(built["iterator"][2]) + built["iterator"][3])
         # ... and the builder can build again (copy=True leaves its own variables untouched)
         kind, m2b = try_call(ip, method(ip, gb, "build_model"), [], {"copy": True})
         c.oblige("copy_true.second_build_same_state", kind == "ok" and observe(ip, m2b) == ref_state, raised=str(getattr(m2b, "args", "")))
@@ -342,7 +354,22 @@ def roundtrip_unit(uid, shape_fn, assign_name, descr):
     return u_roundtrip
 
 
+def shape_model_like_names(g):
+    """the diamond graph plus bare, monitored ROOT nodes whose names merely CONTAIN the reserved `_model` prefix / look like the model's own nodes"""
+    roots = SHAPES["diamond"](g)
+    a = None
+    todo = list(roots)
+    while todo and a is None:
+        v_ = todo.pop()
+        if v_.clsname == "Var" and g.ip.getattr(v_, "name") == "a":
+            a = v_
+        elif v_.clsname == "Var":
+            todo.extend(g.ip.call(method(g.ip, v_, "all_input_vars"), [], {}))
+    return list(roots) + [g.calc("f_null", a, name="null_model_log_prob"), g.calc("f_sub", a, name="sub_model_log_lik"), g.calc("f_seedy", a, name="my_model_x_seed")]
+
+
 roundtrip_unit("C15.roundtrip", SHAPES["diamond"], "a", "shape 'diamond' (shared input, transient node, leaf)")
+roundtrip_unit("C15.roundtrip.names_that_contain_the_reserved_prefix", shape_model_like_names, "a", "shape 'diamond' + bare root nodes named null_model_log_prob, sub_model_log_lik, my_model_x_seed")
 roundtrip_unit("C15.roundtrip.auto_transformed", shape_auto_transformed, "p", "x ~ D(rate=p) with auto_transform=True, y ~ Lik(x)")
 
 
